@@ -358,7 +358,7 @@ def main():
             'source_rewrites_in_scratch_copy': rewrites,
             'samples': samples or [{'note': 'no obligation discharged in this run'}],
             'explanation': cfg.get('explanation', ''),
-            'exhaustive': False,
+            'exhaustive': bool(cfg.get('complete')) and not bounded_ok and not undec and not failed,
         },
         'assumptions': assumptions,
         'wall_s': round(wall, 2),
@@ -379,4 +379,13 @@ def main():
 
 
 if __name__ == '__main__':
-    sys.exit(main())
+    try:
+        rc = main()
+    except SystemExit:
+        raise
+    except BaseException as e:  # an internal error of the driver is never an alarm
+        import traceback
+        traceback.print_exc()
+        print('UNDECIDED: internal error of the check driver: %r' % (e,))
+        rc = 2
+    sys.exit(rc)
